@@ -2,7 +2,7 @@
 import re
 
 from ..mir import MissingAnchor, sym_contains, norm
-from ..rules import render, aggregates, last_seg, bool_switches, must_pass, switch_edges, str_consts
+from ..rules import render, aggregates, last_seg, bool_switches, must_pass, switch_edges, str_consts, compares
 from .. import proto
 
 EXPLANATION = ("TABLE (three-way agreement) and PROTO rules over the resolved MIR: for each of the eight anchor wrapper types the "
@@ -94,6 +94,42 @@ def rule_context_stack(ctx, fx, config):
             okpush = must_pass(g, [0], pushes) and bool(bumps) and must_pass(g, [0], bumps)
     ctx.check(okpush, "CONTEXT", "C14:CONTEXT:push-unconditional", "entering an anchored wrapper always pushes its id and bumps its in-progress count",
               "with_anchor_context pushes the context entry (or bumps the in-progress count) only under a condition: while the same anchor is already open the visitor looks at the wrong innermost entry, and recursion edges are rewired to the nearest enclosing anchored node", config, ctx.where(ac))
+    # every wrapper opens a context — also one whose node carries no anchor: the visitors look "their" anchor up through the whole
+    # stack, so a wrapper that pushed nothing hands the *enclosing* wrapper's anchor to the wrappers nested inside it
+    # (`&x [1, 2]` into RcAnchor<Vec<RcAnchor<i32>>> gives [1, 1]).  The user closure is never called without a push before it,
+    # and the lookup maps the "no anchor" id of such a context to None.
+    fcalls = [b for b, t in ac.calls() if t["f"].get("name") == "call_once" and render(ac.sym_operand(t["args"][0])) == "f"]
+    pushers = [b for b, t in ac.calls() if fx.callee(t) == "std::thread::LocalKey::with"]
+    ctx.check(bool(fcalls) and all(any(ac.dominates(pb, fb) for pb in pushers) for fb in fcalls), "CONTEXT", "C14:CONTEXT:every-wrapper-opens-a-context", "the wrapped visitor runs only after a context entry was pushed (%d call(s))" % len(fcalls),
+              "with_anchor_context runs the visitor of a wrapper whose node has no anchor without pushing a context entry: wrappers nested inside it adopt the enclosing wrapper's anchor id", config, ctx.where(ac))
+    with ac.deep():
+        ids = set()
+        for g in fx.closures_of(ac):
+            pass
+    sent = None
+    for b, t in ac.calls():
+        if last_seg(fx.callee(t)) == "unwrap_or" and len(t["args"]) == 2:
+            v = ac.sym_operand(t["args"][1])
+            with ac.deep():
+                v = ac.sym_operand(t["args"][1])
+            if v[0] == "const" and isinstance(v[1], int):
+                sent = v[1]
+    cur = fx.fn("anchor_store::current_anchor_id")
+    ctx.saw(cur)
+    okf = False
+    if sent is not None:
+        for g in fx.family(cur):
+            for c in compares(g):
+                if c["op"] in ("Ne", "Eq") and str(sent) in (c["rl"], c["rr"]):
+                    okf = True
+            # a comparison that is a closure's result (`.filter(|id| *id != NO_ANCHOR)`) feeds no switch
+            for b, i, s_ in g.stmts():
+                if s_["k"] == "assign":
+                    v = g.sym_rvalue(s_["rv"])
+                    if v[0] == "bin" and v[1] in ("Ne", "Eq") and ("const", sent, "usize") in (v[2], v[3]):
+                        okf = True
+    ctx.check(sent is not None and okf, "CONTEXT", "C14:CONTEXT:no-anchor-id-reads-as-none", "a context opened without an anchor uses the id %s, which the lookup maps to None" % sent,
+              "the id pushed for a wrapper without an anchor (%s) is not filtered by current_anchor_id: it would be taken for a real anchor" % sent, config, ctx.where(cur))
     gd = fx.fn("<anchor_store::Guard as std::ops::Drop>::drop")
     ctx.saw(gd)
     okpop = False
